@@ -98,7 +98,7 @@ type KnownFinding struct {
 	Property  string `json:"property"`
 	Rule      string `json:"rule"`
 	Construct string `json:"construct"`
-	What      string `json:"what"`  // what fails: the concrete input / call site / history
+	What      string `json:"what"`   // what fails: the concrete input / call site / history
 	Defect    string `json:"defect"` // D-number in DESIGN.md
 }
 
